@@ -5,75 +5,10 @@
   The model is parametric in the row reader `rr` (heap.go:ReadRows, area `rows`, whose refinement theorem is
   C03_file): the theorems here are about the catalog / filter / join / dump logic on top of ANY row reader.
 -/
-import PgVerif.Proofs.ClusterDump
+import PgVerif.Proofs.ClusterClass
 namespace PgVerif.Props.C01
 open PgVerif PgVerif.Model PgVerif.Proofs PgVerif.Proofs.Cluster List
 open PgVerif.Spec (TableDump DatabaseDump DumpResult Options)
-
-/-- every table of a DumpDatabaseFromFiles result came out of dumpTable -/
-theorem tables_from_dumpTable (rr : RowReader) (π : MapOrder TableInfo) (cd ad : Bytes) (reader : Option FileReader)
-    (o : Options) (ts : List TableDump) (h : dumpDatabaseFromFiles rr π cd ad reader o = .ok ts) :
-    ∀ t ∈ ts, ∃ fn info attrs, dumpTable rr fn info attrs reader o = .ok t := by
-  unfold dumpDatabaseFromFiles at h
-  cases h1 : parsePGClass rr cd with
-  | error e => simp [h1] at h
-  | ok tables =>
-    cases h2 : parsePGAttribute rr ad o.pgVersion with
-    | error e => simp [h1, h2] at h
-    | ok attrs =>
-      simp only [h1, h2, ok_bind] at h
-      intro t ht
-      obtain ⟨fn, _, hfn⟩ := collectM_ok _ _ _ h t ht
-      unfold dumpOne at hfn
-      cases hg : mapGet tables fn with
-      | none => simp [hg] at hfn
-      | some info =>
-        simp only [hg] at hfn
-        by_cases hk : keepTable o info = true
-        · rw [if_pos hk] at hfn
-          cases hd : dumpTable rr fn info ((mapGet attrs info.oid).getD []) reader o with
-          | error e => simp [hd] at hfn
-          | ok t' =>
-            simp only [hd, ok_bind, pure_eq_ok] at hfn
-            injection hfn with hfn; injection hfn with hfn; subst hfn
-            exact ⟨fn, info, _, hd⟩
-        · rw [if_neg hk] at hfn; simp at hfn
-
-/-- every database of a DumpDataDir result came out of DumpDatabaseFromFiles -/
-theorem dbs_from_files (rr : RowReader) (π : MapOrder TableInfo) (fs : Bytes → Option Bytes) (o : Options)
-    (r : DumpResult) (h : dumpDataDir rr π fs o = .ok (some r)) :
-    ∀ d ∈ r, ∃ cd ad reader, dumpDatabaseFromFiles rr π cd ad reader o = .ok d.tables := by
-  unfold dumpDataDir at h
-  cases hg : fs pathGlobal1262 with
-  | none => simp [hg] at h
-  | some dbData =>
-    simp only [hg] at h
-    cases hp : parsePGDatabase rr dbData with
-    | error e => simp [hp] at h
-    | ok dbs =>
-      simp only [hp, ok_bind] at h
-      cases hc : collectM (dumpDb rr π fs o) dbs with
-      | error e => simp [hc] at h
-      | ok r' =>
-        simp only [hc, ok_bind, pure_eq_ok] at h
-        injection h with h; injection h with h; subst h
-        intro d hd
-        obtain ⟨db, _, hdb⟩ := collectM_ok _ _ _ hc d hd
-        unfold dumpDb at hdb
-        split at hdb
-        · simp at hdb
-        · split at hdb
-          · simp at hdb
-          · simp only at hdb
-            split at hdb
-            · simp at hdb
-            · cases hf : dumpDatabaseFromFiles rr π ((fs (basePath db.oid 1259)).getD []) ((fs (basePath db.oid 1249)).getD [])
-                  (some fun fn => fs (basePath db.oid fn)) o with
-              | error e => simp [hf] at hdb
-              | ok ts =>
-                simp only [hf, ok_bind, pure_eq_ok] at hdb
-                injection hdb with hdb; injection hdb with hdb; subst hdb
-                exact ⟨_, _, _, hf⟩
 
 /-- **The reported row count always equals the number of rows returned** — for every row reader, every file
 tree (well-formed or garbage), every iteration order and all options. -/
@@ -141,7 +76,41 @@ theorem C01_listonly (rr : RowReader) (π : MapOrder TableInfo) (cd ad : Bytes) 
           rw [if_neg (show ¬ keepTable { o with listOnly := true } info = true from hk)]
           injection hy with hy; subst hy; rfl
 
+/-- **Every ordinary user table that passes the filters, exactly once** (the pg_class half of `C01_dump`).
+For every database content `d`, if the row reader hands ParsePGClass the live pg_class rows of `d` (as far as oid,
+relname, relfilenode and relkind go — what C03_file gives for the encoded catalog) and `d` is well-formed (live
+rows with storage have pairwise distinct filenodes, relkind is a byte), then the tables DumpDatabaseFromFiles
+returns are, with their oid, name, filenode and kind, exactly the tables of the specification's expected dump
+`Spec.expectedDb`: relkind `r`, relfilenode ≠ 0, not `pg_`-prefixed when skipping system tables, containing the
+lower-cased filter — each once, dead row versions ignored, in the same (filenode) order; for every iteration order
+of Go's table map, every pg_attribute content, every file reader and all options.
+
+`_partial`: the full `C01_dump` also equates each table's columns (join of pg_attribute by relation oid, attnum > 0
+in attnum order, layout detection) and rows (`Spec.expectedTable`) with the model's.  Those two parts are checked at
+run time on every generated cluster (family `cluster_dump`: model = spec outside the recorded classes A01z, A03,
+A04) and, at the row level, proved by area `rows` (`C03_file`); they are not proved here. -/
+theorem C01_dump_partial (rr : RowReader) (π : MapOrder TableInfo) (hπ : ∀ l, π l ~ l) (val : Spec.Val) (o : Options)
+    (db : Spec.DbRow) (d : Spec.DbContent) (cd ad : Bytes) (reader : Option FileReader) (rows : List Row)
+    (hr : rr cd schemaPGClass true = .ok rows) (hrows : rows.map infoOfRow = d.cls.live.map infoOfRel)
+    (hnd : ((d.cls.live.filter (·.filenode != 0)).map (·.filenode)).Nodup) (hkind : ∀ r ∈ d.cls.live, r.kind < 256)
+    (ts : List TableDump) (h : dumpDatabaseFromFiles rr π cd ad reader o = .ok ts) :
+    ts.map tableKey = (Spec.expectedDb val o db d).tables.map tableKey := by
+  rw [dump_tables_of_live rr π hπ cd ad reader o rows d.cls.live hr hrows hnd hkind ts h, expectedDb_keys]
+
+/-- the decidable side conditions of `C01_dump_partial` hold for a small pg_class (a table, an index, a view).  The
+reader hypothesis `hrows` (an equation between association lists keyed by string literals, which the kernel does
+not evaluate) is re-checked at run time on every generated cluster instead: family `cluster_dump` tags each case
+`hyp:class=ok` when `Model.readRows` applied to the encoded pg_class satisfies it, and `hyp:class=FAIL` otherwise
+(counts are in the evidence histogram). -/
+example :
+    let live : List Spec.ClassRow := [{ oid := 16384, name := [116], kind := 114, filenode := 16390 },
+                                      { oid := 16387, name := [105], kind := 105, filenode := 16387 },
+                                      { oid := 16388, name := [118], kind := 118, filenode := 0 }]
+    ((live.filter (·.filenode != 0)).map (·.filenode)).Nodup ∧ ∀ r ∈ live, r.kind < 256 := by
+  refine ⟨by decide, by decide⟩
+
 #print axioms C01_rowcount
+#print axioms C01_dump_partial
 #print axioms C01_rowcount_files
 #print axioms C01_listonly_norows
 #print axioms C01_listonly
